@@ -167,6 +167,8 @@ func Market() Spec {
 		Buy(D, "underbid", BuySpec{Seller: B, K: 0, Qty: "0.5", BidAdj: -1, DAR: true}),
 		Buy(D, "wrong-denom", BuySpec{Seller: B, K: 0, Qty: "0.5", BidDen: "stake", DAR: true}),
 		Buy(B, "own-order", BuySpec{Seller: B, K: 0, Qty: "0.5", DAR: true}),
+		// two orders of one batch in different markets, the second bid expressed in the FIRST order's denom
+		Buy(D, "B0+B1-bid-in-first-denom", BuySpec{Seller: B, K: 0, Qty: "0.5", DAR: true, MaxFee: I64(100)}, BuySpec{Seller: B, K: 1, Qty: "0.5", BidDen: "uregen", BidAdj: 100, MaxFee: I64(100)}),
 		Buy(D, "dar-not-allowed", BuySpec{Seller: B, K: 1, Qty: "0.5", DAR: true}),
 		fix(GovFeeParams(D, "0.01", "0.01")), // not the authority
 	}
@@ -182,6 +184,7 @@ func Market() Spec {
 		UpdateOrder(B, B, 0, "2.5", nil, true, nil),
 		UpdateOrder(B, B, 0, "0.5", nil, true, &e20),
 		UpdateOrder(B, B, 1, "", pcoin("uregen", 5), false, nil),
+		UpdateOrder(B, B, 1, "0.5", nil, false, nil), // keeps the (ibc) ask denom, changes the quantity
 		UpdateOrder(C, C, 0, "0.25", pcoin(IBC, 2), true, &e20),
 		CancelOrder(B, B, 0),
 		CancelOrder(B, B, 1),
